@@ -477,6 +477,24 @@ def seek (c : Cfg) (f : File) (e : Env) (off : Int) (data : Bool) : Env × Excep
   else if data then seekData c f e off.toNat
   else seekHoleLoop c f (f.size + 1) e off.toNat
 
+/-! ## `toDeviceOffset` with the machine types of the Go code
+
+`int64(sector-1)*int64(f.fp.sectorSizeBytes) + int64(offsetWithinSector)`: `sector` is a
+`uint32`, the subtraction happens in 32 bits, the widening conversion comes *before* the
+multiplication, which (like the addition) is a wrapping 64-bit operation (`int` and `int64` are
+both 64 bits wide on the supported platforms; the bit pattern of the result is what is modelled).
+Everywhere else this file computes device offsets in `Nat` as `(sector-1)*ss + ow`;
+`Lemmas/FilePoolOffset.lean` shows the two agree for every sector number and every sector size up
+to 2^31, and that distinct sectors occupy disjoint device ranges. -/
+
+def toDeviceOffset (sector : BitVec 32) (sectorSizeBytes offsetWithinSector : BitVec 64) : BitVec 64 :=
+  (sector - 1).setWidth 64 * sectorSizeBytes + offsetWithinSector
+
+/-- the variant that multiplies in 32 bits before widening
+(`int64((sector-1)*uint32(sectorSizeBytes)) + int64(offsetWithinSector)`): wraps at 4 GiB. -/
+def toDeviceOffsetLegacy32 (sector : BitVec 32) (sectorSizeBytes offsetWithinSector : BitVec 64) : BitVec 64 :=
+  ((sector - 1) * sectorSizeBytes.setWidth 32).setWidth 64 + offsetWithinSector
+
 /-! ## The pool as a transition system -/
 
 structure State where
